@@ -54,7 +54,7 @@ func main() {
 			"Filter/While with every predicate mask by position for length <= %d (longer: every mask for 4 sequences per length and 10 fixed masks for every sequence); "+
 			"First/Last n = 0..len+1; Chunk size 1..len+1; Compact, CompactFunc/Runs with 5 equivalences; WithPeek with every Peek/Next pattern of length min(len+2,%d) then drained; "+
 			"Flatten/FlattenSlices/Join over every cut of every sequence of length <= %d into <= %d possibly-empty parts; Equal over all pairs of length <= %d and every one-place variation; "+
-			"Counter/Repeat n = -3..9. For every cut of every sequence of length <= 4 also nested Joins over ONE array of leaves (Join(Join(L[:m]...), trailer) then Join(L[m:]...) for every m; groups of two joined, then the groups joined), both flavours; Runs also with undrained inner runs (4 read policies). Wrap after use: for every sequence of length <= 5, each of 14 combinators is used for j requests (every j up to and past its end) and only then wrapped in another combinator (the same kind always, six other kinds alternately) or handed to Collect, both flavours. Source position: every one-source triple, WithPeek pattern, Runs walk and Flatten/Join cut again directly over the library's own source types, stopped after every j requests, rest of the source compared; named idioms (Join(First(it,k), it), head/rest, paging with First and Chunk, While/rest) for every k. Long stretches: Flatten / FlattenSlices / Filter / Compact / CompactFunc over one item, N skipped items, one item (N = 20-30 million for iterators, the same for streams; stack depth must not grow with N). Then random inputs of length <= %d and random pipelines of 2-4 combinators against the composed reference.",
+			"Counter/Repeat n = -3..9. For every cut of every sequence of length <= 4 also nested Joins over ONE array of leaves (Join(Join(L[:m]...), trailer) then Join(L[m:]...) for every m; groups of two joined, then the groups joined), both flavours; Runs also with undrained inner runs (4 read policies). Wrap after use: for every sequence of length <= 5, each of 14 combinators is used for j requests (every j up to and past its end) and only then wrapped in another combinator (the same kind always, six other kinds alternately) or handed to Collect, both flavours; for iterators the used combinator is also read again after the wrapper took 0 / 1 / all items (what went through the wrapper counts against it; final source position checked). Per-call contexts: every stream combinator, WithPeek with every Peek/Next pattern, and Runs, over every sequence of length <= 4, with one cancelled-context call at every position and two in a row, retried with a live context. Source position: every one-source triple, WithPeek pattern, Runs walk and Flatten/Join cut again directly over the library's own source types, stopped after every j requests, rest of the source compared; named idioms (Join(First(it,k), it), head/rest, paging with First and Chunk, While/rest) for every k. Long stretches: Flatten / FlattenSlices / Filter / Compact / CompactFunc over one item, N skipped items, one item (N = 20-30 million for iterators, the same for streams; stack depth must not grow with N). Then random inputs of length <= %d and random pipelines of 2-4 combinators against the composed reference.",
 			maxLen, cfg.fullMaskLen, cfg.peekLen, cutLen, cutParts, pairLen, randLen))
 		r.SetExhaustive(true)
 		r.SetExtra("exhaustive_scope", "the small-scope groups (small/*) enumerate their stated bounds completely; the rand/* groups are seeded samples")
@@ -66,6 +66,7 @@ func main() {
 		r.Assume("the value a source returns together with the end / an error is meaningless (Iterator doc): every int probe source returns changing non-zero garbage there; reference outputs never contain it. Outer sources of Flatten / FlattenSlices return a usable non-nil iterator / stream / a non-empty slice there")
 		r.Assume("reducers are documented to consume: after Collect / Last / Reduce / Equal (all sequences equal, any arity incl. 1) over the library's own sources the source must be exhausted; One must have taken min(len,2)..len items; Equal with a first disagreement at p at least min(p,len) of each")
 		r.Assume("32-bit variant (thorough, GOARCH=386): quick-sized workload plus, for 10 constructors / combinators that keep a counter, run to their end, 2^31+2^10 (Repeat: 2^32+2^10) further polls that must all report the end; on 64-bit builds a counter that keeps moving after the end cannot wrap within reach and is not observable")
+		r.Assume("per-call contexts (streams): the source honours a cancelled context before consuming; a call made with it may fail with the context's error (then nothing is lost and a retry with a live context continues exactly) or answer normally from what is buffered; callbacks never fail. Reading the used combinator again after it was wrapped is checked for iterators only: package stream makes the wrapper the sole user of its argument")
 		r.Assume("argument integrity: no operation of this property is documented to modify a slice it is handed; every slice argument (variadic source lists, item slices, slices of slices) is a sub-slice with spare capacity of a sentinel-guarded array that must be unchanged after every request. stream.FlattenSlices overwriting the items INSIDE a slice it has consumed is recorded, not judged")
 		r.Assume("non-termination is decided by a call budget, not by time: callbacks and probe sources may be invoked at most 200*(n+16) times per run of one flavour over n items (legitimate runs need a few times n)")
 		r.Assume("parameters inside the documented domain only: chunkSize >= 1, First/Last n >= 0, xslices.Repeat n >= 0")
@@ -123,6 +124,10 @@ func main() {
 		wrapN := sp.offset[6]
 		r.Cases("small/wrap", wrapN, W, func(c *vkit.Case) { a := newAcc(c); wrapAfterUse(a, sp.seqs[c.Index]); a.flush() })
 
+		// Per-call contexts for streams (ctxplan.go): sequences up to length 4 (thorough 5).
+		ctxN := sp.offset[scale(4, 5)+1]
+		r.Cases("small/ctx", ctxN, W, func(c *vkit.Case) { a := newAcc(c); ctxPlans(a, sp.seqs[c.Index]); a.flush() })
+
 		// 32-bit int only: more than 2^31 polls after the end (wrap.go).
 		if intIs32() && r.Thorough() {
 			polls := pollScenarios()
@@ -179,6 +184,8 @@ func main() {
 		r.Floor("source-position checks", r.Table("totals", "source-position checks (rest of the library's own source read after j requests)"), int64(100*N))
 		r.Floor("idiom Join(First(it,k), it) over the library's own sources", r.Table("idioms over the library's own sources", "Join(First(it,k), it)"), int64(2*N))
 		r.Floor("source-position over Counter / Repeat sources", r.Table("source-position: constructor-shaped sources used", "Counter / Repeat"), 500)
+		r.Floor("per-call context plans", r.Table("triples by operation", "ctx-plan"), int64(100*ctxN))
+		r.Floor("inner combinator read again after wrapping", r.Table("wrap after use", "inner combinator read again after the wrapper was used"), int64(20*wrapN))
 		r.Floor("wrap-after-use triples", r.Table("triples by operation", "wrap-after-use"), int64(50*wrapN))
 		r.Floor("random pipelines checked", r.Table("triples by operation", "pipeline"), int64(nPipe))
 		r.Floor("Next calls after the end checked", r.Table("totals", "Next calls after the end checked"), int64(3*N))
